@@ -5,7 +5,7 @@ lists below enumerate program shapes; the solver quantifies over the datapoints.
 """
 import itertools
 
-from vt.astb import (agg, aggr, analytic, assign, between, binop, calc, case, cast, const, drop, filter_, having, if_, in_,
+from vt.astb import (jbody, agg, aggr, analytic, assign, between, binop, calc, case, cast, const, drop, filter_, having, if_, in_,
                      join, keep, member, paramop, par, rename, setop, start, structure, sub, unop, var, window, optional)
 
 I, M = "Identifier", "Measure"
@@ -157,6 +157,9 @@ def c01(tier):
     out.append(T("d2_bool_of_cmps", binop("and", binop(">", "DS_4", 1), binop("<", "DS_5", 1)), n))
     out.append(T("d2_bool_of_cmps_stmt", binop("and", "DS_a", "DS_b"), n,
                  extra_stmts=[assign("DS_a", binop(">", "DS_4", 1)), assign("DS_b", binop("<", "DS_5", 1))]))
+    out.append(T("d2_wide_left_q", binop("+", par(binop("+", "DS_1", "DS_3")), "DS_2"), n))
+    out.append(T("d2_wide_right_q", binop("-", "DS_2", par(binop("*", "DS_3", "DS_1"))), n))
+    out.append(T("d2_narrow_mid_q", binop("+", par(binop("+", "DS_3", "DS_1")), "DS_2"), n))
     if tier != "quick":
         for a, b in itertools.product(["+", "-", "*"], repeat=2):
             out.append(T("d2_%s_%s_l" % (sn(a), sn(b)), binop(b, par(binop(a, "DS_1", "DS_2")), "DS_3"), n))
@@ -166,4 +169,163 @@ def c01(tier):
             out.append(T("d2_cmp_%s_abs" % sn(op), binop(op, unop("abs", "DS_4"), "DS_5"), n))
         out.append(T("d3_chain", binop("+", binop("+", binop("+", "DS_4", "DS_5"), "DS_6"), 1), n))
         out.append(T("d2_if_of_sum", if_(binop(">", member("DS_4", "Me_1"), 0), binop("+", "DS_4", "DS_5"), "DS_5"), n))
+    return out
+
+
+# ------------------------------------------------------------------------------------------ C02 clauses
+def c02(tier):
+    n = 2 if tier == "quick" else 3
+    out = []
+    cond1 = binop(">", "Me_1", 1)
+    cond2 = binop("and", binop(">", "Me_1", 0), binop("<", "Me_2", 5))
+    cond3 = binop("or", unop("isnull", "Me_1"), binop("=", "Id_2", const("a")))
+    out.append(T("filter_gt", filter_("DS_1", cond1), n))
+    out.append(T("filter_and", filter_("DS_1", cond2), n))
+    out.append(T("filter_or_isnull", filter_("DS_1", cond3), n))
+    out.append(T("filter_boolcomp", filter_("DS_X", "Me_3"), n))
+    out.append(T("filter_not", filter_("DS_X", unop("not", "Me_3")), n))
+    out.append(T("filter_id", filter_("DS_1", binop("=", "Id_1", 1)), n))
+    out.append(T("filter_in", filter_("DS_1", in_("Me_1", [1, 2])), n))
+    out.append(T("filter_between", filter_("DS_1", between("Me_2", 0, "Me_1")), n))
+    out.append(T("calc_new", calc("DS_1", [("measure", "Me_3", binop("+", "Me_1", "Me_2"))]), n))
+    out.append(T("calc_overwrite", calc("DS_1", [("measure", "Me_1", binop("*", "Me_1", 2))]), n))
+    out.append(T("calc_two", calc("DS_1", [("measure", "Me_3", binop("+", "Me_1", 1)), ("measure", "Me_4", binop("-", "Me_2", "Me_1"))]), n))
+    out.append(T("calc_attr", calc("DS_1", [("attribute", "At_1", binop("||", "Id_2", const("x")))]), n))
+    out.append(T("calc_const", calc("DS_1", [("measure", "Me_3", const(7))]), n))
+    out.append(T("calc_swap", calc("DS_1", [("measure", "Me_1", "Me_2"), ("measure", "Me_2", "Me_1")]), n))
+    out.append(T("keep_one", keep("DS_1", ["Me_1"]), n))
+    out.append(T("keep_two", keep("DS_X", ["Me_2", "Me_4"]), n))
+    out.append(T("drop_one", drop("DS_1", ["Me_1"]), n))
+    out.append(T("drop_two", drop("DS_X", ["Me_1", "Me_3"]), n))
+    out.append(T("rename_measure", rename("DS_1", [("Me_1", "Me_9")]), n))
+    out.append(T("rename_id", rename("DS_1", [("Id_2", "Id_9")]), n))
+    out.append(T("rename_swap", rename("DS_1", [("Me_1", "Me_2"), ("Me_2", "Me_1")]), n))
+    out.append(T("sub_one", sub("DS_1", [("Id_1", 1)]), n))
+    out.append(T("sub_str", sub("DS_1", [("Id_2", "a")]), n))
+    out.append(T("sub_two", sub("DS_7", [("Id_1", 1), ("Id_2", "a")]), n))
+    # chains of two
+    base = {
+        "filter": lambda d: filter_(d, cond1),
+        "calc": lambda d: calc(d, [("measure", "Me_3", binop("+", "Me_1", "Me_2"))]),
+        "keep": lambda d: keep(d, ["Me_1"]),
+        "drop": lambda d: drop(d, ["Me_2"]),
+        "rename": lambda d: rename(d, [("Me_1", "Me_9")]),
+        "sub": lambda d: sub(d, [("Id_2", "a")]),
+    }
+    second = dict(base)
+    second["filter_after_rename"] = lambda d: filter_(d, binop(">", "Me_9", 1))
+    for a, b in itertools.permutations(list(base), 2):
+        # skip chains that are not well-typed (second clause refers to a component removed/renamed by the first)
+        if a == "keep" and b in ("calc", "drop"):
+            continue
+        if a == "drop" and b == "calc":
+            continue
+        if a == "rename" and b in ("filter", "calc", "keep", "rename"):
+            continue
+        out.append(T("chain_%s_%s" % (a, b), base[b](base[a]("DS_1")), n))
+    out.append(T("chain_rename_filter9", filter_(rename("DS_1", [("Me_1", "Me_9")]), binop(">", "Me_9", 1)), n))
+    out.append(T("chain_calc_filter_new", filter_(calc("DS_1", [("measure", "Me_3", binop("+", "Me_1", "Me_2"))]), binop(">", "Me_3", 2)), n))
+    out.append(T("chain_calc_keep_new", keep(calc("DS_1", [("measure", "Me_3", binop("+", "Me_1", "Me_2"))]), ["Me_3"]), n))
+    # clause on a join result, including a computed component that shares its name with qualified ones
+    j = join("inner_join", [("DS_1", "d1"), ("DS_2", "d2")])
+    jc = join("inner_join", [("DS_4", "d1"), ("DS_5", "d2")])
+    J = lambda: join("inner_join", [("DS_1", "d1"), ("DS_J", "dj")])  # noqa: E731
+    out.append(T("join_then_filter", jbody(J(), lambda d: filter_(d, binop(">", "Me_3", "Me_1"))), n))
+    out.append(T("join_then_calc", jbody(J(), lambda d: calc(d, [("measure", "Me_9", binop("+", "Me_3", "Me_1"))])), n))
+    out.append(T("join_then_keep", jbody(J(), lambda d: keep(d, ["Me_4"])), n))
+    JC = lambda: join("inner_join", [("DS_4", "d1"), ("DS_5", "d2")])  # noqa: E731
+    resolve = lambda d: calc(d, [("measure", "Me_1", binop("+", member("d1", "Me_1"), member("d2", "Me_1")))])  # noqa: E731
+    # (AST-level only: a join+calc whose qualified columns are still visible to the next clause - isLast is never set)
+    JN = lambda: join("inner_join", [("DS_4", "d1"), ("DS_5", "d2")], last=False)  # noqa: E731
+    out.append(T("joincalc_then_filter_bare", filter_(resolve(JN()), binop(">", "Me_1", 1)), n))
+    out.append(T("joincalc_then_calc_bare", calc(resolve(JN()), [("measure", "Me_9", binop("*", "Me_1", 2))]), n))
+    out.append(T("joincalc_keep_qualified", jbody(JC(), resolve, lambda d: keep(d, ["Me_1"])), n))
+    if tier != "quick":
+        for a, b, c in itertools.permutations(["filter", "calc", "drop", "sub"], 3):
+            if (a, b) == ("drop", "calc") or (b, c) == ("drop", "calc") or (a, c) == ("drop", "calc"):
+                continue
+            out.append(T("chain3_%s_%s_%s" % (a, b, c), base[c](base[b](base[a]("DS_1"))), n))
+    return out
+
+
+# ------------------------------------------------------------------------------------------ C03 aggregations
+AGGS = ["sum", "avg", "count", "min", "max", "median", "stddev_pop", "stddev_samp", "var_pop", "var_samp"]
+
+
+def c03(tier):
+    n = 3 if tier == "quick" else 4
+    out = []
+    ops = AGGS if tier != "quick" else ["sum", "avg", "count", "min", "max", "median", "var_pop", "var_samp"]
+    for op in ops:
+        nn = n if op not in ("median", "stddev_pop", "stddev_samp", "var_pop", "var_samp") else min(n, 3)
+        out.append(T("%s_group_by" % op, agg(op, "DS_1", "group by", ["Id_1"]), nn))
+        out.append(T("%s_group_except" % op, agg(op, "DS_1", "group except", ["Id_1"]), nn))
+        out.append(T("%s_nogroup" % op, agg(op, "DS_4"), nn))
+        out.append(T("%s_group_all_ids" % op, agg(op, "DS_4", "group by", ["Id_1", "Id_2"]), nn))
+        out.append(T("%s_aggr_clause" % op, aggr("DS_1", [("measure", "Me_9", op, "Me_1")], "group by", ["Id_1"]), nn))
+    for op in ("min", "max"):
+        out.append(T("%s_str" % op, agg(op, "DS_7S", "group by", ["Id_1"]), n, structs=POOL + [S("DS_7S", ID2, [("Me_1", "String")])]))
+    out.append(T("sum_three_ids", agg("sum", "DS_7", "group by", ["Id_1", "Id_3"]), n))
+    out.append(T("sum_three_ids_except", agg("sum", "DS_7", "group except", ["Id_2"]), n))
+    out.append(T("having_sum", agg("sum", "DS_4", "group by", ["Id_1"], having(binop(">", agg("sum", "Me_1"), 3))), n))
+    out.append(T("having_count", agg("max", "DS_4", "group by", ["Id_1"], having(binop(">", agg("count"), 1))), n))
+    out.append(T("having_avg_lt", agg("min", "DS_4", "group except", ["Id_1"], having(binop("<", agg("avg", "Me_1"), 2))), n))
+    out.append(T("aggr_two", aggr("DS_1", [("measure", "Me_8", "sum", "Me_1"), ("measure", "Me_9", "max", "Me_2")], "group by", ["Id_1"]), n))
+    out.append(T("aggr_nogroup", aggr("DS_1", [("measure", "Me_9", "sum", "Me_2")]), n))
+    out.append(T("aggr_count_star", aggr("DS_1", [("measure", "Me_9", "count", None)], "group by", ["Id_1"]), n))
+    out.append(T("aggr_having", aggr("DS_1", [("measure", "Me_9", "sum", "Me_1")], "group by", ["Id_1"], having(binop(">", agg("count"), 1))), n))
+    out.append(T("sum_of_filtered", agg("sum", filter_("DS_1", binop(">", "Me_1", 0)), "group by", ["Id_1"]), n))
+    out.append(T("sum_of_sum", agg("sum", par(binop("+", "DS_1", "DS_2")), "group by", ["Id_2"]), 2))
+    return out
+
+
+# ------------------------------------------------------------------------------------------ C04 joins
+def c04(tier):
+    n = 2 if tier == "quick" else 3
+    out = []
+    for op in ("inner_join", "left_join"):
+        J = lambda op=op: join(op, [("DS_1", "d1"), ("DS_J", "dj")])  # noqa: E731
+        JC = lambda op=op: join(op, [("DS_4", "a"), ("DS_5", "b")])  # noqa: E731
+        out.append(T("%s_subset" % op, J(), n))
+        out.append(T("%s_equal_ids" % op, join(op, [("DS_1", "d1"), ("DS_K", "dk")]), n))
+        out.append(T("%s_noalias" % op, join(op, ["DS_1", "DS_J"]), n))
+        out.append(T("%s_using" % op, join(op, [("DS_1", "d1"), ("DS_J", "dj")], using=["Id_1"]), n))
+        out.append(T("%s_three" % op, join(op, [("DS_1", "d1"), ("DS_K", "dk"), ("DS_J", "dj")]), 2))
+        out.append(T("%s_filter" % op, jbody(J(), lambda d: filter_(d, binop(">", "Me_3", 0))), n))
+        out.append(T("%s_calc" % op, jbody(J(), lambda d: calc(d, [("measure", "Me_9", binop("+", "Me_1", "Me_3"))])), n))
+        out.append(T("%s_keep" % op, jbody(J(), lambda d: keep(d, ["Me_1", "Me_4"])), n))
+        out.append(T("%s_drop" % op, jbody(J(), lambda d: drop(d, ["Me_2"])), n))
+        out.append(T("%s_rename" % op, jbody(J(), lambda d: rename(d, [("Me_3", "Me_9")])), n))
+        out.append(T("%s_filter_calc_keep" % op, jbody(J(), lambda d: filter_(d, binop(">", "Me_3", 0)),
+                                                     lambda d: calc(d, [("measure", "Me_9", binop("+", "Me_1", "Me_3"))]), lambda d: keep(d, ["Me_9"])), n))
+        out.append(T("%s_conflict_calc" % op, jbody(JC(), lambda d: calc(d, [("measure", "Me_9", binop("+", member("a", "Me_1"), member("b", "Me_1")))]),
+                                                  lambda d: keep(d, ["Me_9"])), n))
+        out.append(T("%s_conflict_rename" % op, jbody(JC(), lambda d: rename(d, [("a#Me_1", "Me_8"), ("b#Me_1", "Me_9")])), n))
+    out.append(T("inner_three_narrow_first", join("inner_join", [("DS_6", "a"), ("DS_K", "b"), ("DS_7", "c")]), 2, structs=POOL[:-1] + [S("DS_7", ID2, [("Me_7", "Integer")])]))
+    out.append(T("inner_three_wide_first", join("inner_join", [("DS_K", "b"), ("DS_6", "a"), ("DS_J", "c")]), 2))
+    out.append(T("full_equal_ids", join("full_join", [("DS_1", "d1"), ("DS_K", "dk")]), n))
+    out.append(T("full_conflict_rename", jbody(join("full_join", [("DS_4", "a"), ("DS_5", "b")]), lambda d: rename(d, [("a#Me_1", "Me_8"), ("b#Me_1", "Me_9")])), n))
+    out.append(T("full_three", join("full_join", [("DS_4", "a"), ("DS_K", "b"), ("DS_Bm", "c")]), 2, structs=POOL + [S("DS_Bm", ID2, [("Me_6", "Boolean")])]))
+    out.append(T("cross_rename", jbody(join("cross_join", [("DS_6", "a"), ("DS_J", "b")]), lambda d: rename(d, [("a#Id_1", "Id_a"), ("b#Id_1", "Id_b")])), n))
+    out.append(T("inner_aggr", jbody(join("inner_join", [("DS_1", "d1"), ("DS_J", "dj")]), lambda d: aggr(d, [("measure", "Me_9", "sum", "Me_3")], "group by", ["Id_1"])), n))
+    return out
+
+
+# ------------------------------------------------------------------------------------------ C05 set operators
+def c05(tier):
+    n = 2
+    out = []
+    for op in ("union", "intersect", "setdiff", "symdiff"):
+        out.append(T("%s_two" % op, setop(op, ["DS_1", "DS_2"]), n if tier == "quick" else 3))
+        out.append(T("%s_two_mono" % op, setop(op, ["DS_4", "DS_5"]), 3))
+        out.append(T("%s_two_noid" % op, setop(op, ["DS_B", "DS_B2"]), n))
+    for op in ("union", "intersect"):
+        out.append(T("%s_three" % op, setop(op, ["DS_4", "DS_5", "DS_4b"]), 2, structs=POOL + [S("DS_4b", ID2, [("Me_1", "Integer")])]))
+        out.append(T("%s_four" % op, setop(op, ["DS_4", "DS_5", "DS_4b", "DS_4c"]), 2,
+                     structs=POOL + [S("DS_4b", ID2, [("Me_1", "Integer")]), S("DS_4c", ID2, [("Me_1", "Integer")])]))
+    out.append(T("union_self", setop("union", ["DS_4", "DS_4"]), 2))
+    out.append(T("union_of_filter", setop("union", [filter_("DS_4", binop(">", "Me_1", 0)), "DS_5"]), 2))
+    out.append(T("setdiff_of_union", setop("setdiff", [setop("union", ["DS_4", "DS_5"]), "DS_4b"]), 2, structs=POOL + [S("DS_4b", ID2, [("Me_1", "Integer")])]))
+    out.append(T("union_reordered_cols", setop("union", ["DS_1", "DS_1r"]), 2,
+                 structs=POOL + [structure("DS_1r", [("Id_1", "Integer", I, False), ("Id_2", "String", I, False), ("Me_2", "Number", M, True), ("Me_1", "Integer", M, True)])]))
     return out
